@@ -97,6 +97,39 @@ func checkSpec(ctx *Ctx, id string) {
 				}
 			}
 		}
+		// marker numbers at word boundaries: every marker template of the ecosystem with the numbers
+		// 2^32-1, 2^32, 2^32+1 (and one of 2^31, 2^63-1, 2^64) on one base, alone and after another
+		// marker with a small number (1.0a1.dev4294967296)
+		if sh := numShapes[name]; sh != nil {
+			ar := sh.Arities[r.Intn(len(sh.Arities))]
+			parts := make([]string, ar)
+			for i := range parts {
+				parts[i] = r.Pick([]string{"1", "2", "0"})
+			}
+			base := sh.Prefix + strings.Join(parts, ".")
+			tpls := append(append([]string{}, sh.Pre...), sh.Post...)
+			bigs := []string{"4294967295", "4294967296", "4294967297", r.Pick([]string{"2147483648", "9223372036854775807", "18446744073709551616", "202310051230"})}
+			var fam []string
+			for _, tpl := range tpls {
+				if !strings.Contains(tpl, "%k") && !strings.Contains(tpl, "%K") {
+					continue
+				}
+				for _, k := range bigs {
+					m := strings.ReplaceAll(strings.ReplaceAll(tpl, "%k", k), "%K", k)
+					fam = append(fam, base+m)
+					if r.Chance(35) && len(tpls) > 1 {
+						first := strings.ReplaceAll(strings.ReplaceAll(tpls[r.Intn(len(tpls))], "%k", "1"), "%K", "1")
+						fam = append(fam, base+first+m, base+first)
+					}
+				}
+			}
+			// a seed-dependent third of them, so that the pool keeps room for everything else
+			for i, f := range fam {
+				if (i+int(ctx.Seed))%3 == 0 || !ctx.Quick {
+					extra = append([]string{f}, extra...)
+				}
+			}
+		}
 		// word-boundary family: one base, one position, the numbers 2^k-1, 2^k, 2^k+1 for a
 		// seed-dependent half of the usual widths (8..64 bits): a single mishandled value meets
 		// its two neighbours and small numbers at the same position
@@ -120,7 +153,7 @@ func checkSpec(ctx *Ctx, id string) {
 				}
 			}
 		}
-		p, cands := BuildPool(e, r, n+len(extra)/2, extra)
+		p, cands := BuildPool(e, r, n+len(extra)/2+120, extra)
 		// reference validity
 		var reqs []string
 		var keep []int
